@@ -261,6 +261,9 @@ def e1_oracle(rec, table=None):
         # merit values are recomputed by the monitor after a possible base shift: allow ten times the documented
         # tie tolerance for the two extra roundings
         tol = 100.0 * EPS * max(len(m), 2) * max(abs(m[b]), 1.0)
+        # ... and the violations are recomputed from x_base + xpt: their rounding errors enter the merit
+        # multiplied by the penalty parameter (which is of order 1e28 after a barrier value)
+        tol += pen * 100.0 * EPS * t.get("viol_mag", 1.0)
         better = [k for k in range(len(m)) if m[k] < m[b] - tol]
         if better:
             k = better[0]
